@@ -161,6 +161,7 @@ type exitInfo struct {
 }
 
 type FnExec struct {
+	ownerRefsT types.Type
 	netipAddrT types.Type
 	convSt     *State // state at the conversion being translated
 	labelled   map[string]*labelledGuard
